@@ -206,7 +206,11 @@ func (vm *VM) FindElement(name *IDName) (Element, error) {
 		return elem, nil
 	}
 	// then look for local values
-	elem := vm.getCurrentScope().GetValue(nameStr)
+	scope := vm.getCurrentScope()
+	if scope == nil {
+		return nil, zerr.NameNotDefined(nameStr)
+	}
+	elem := scope.GetValue(nameStr)
 	if elem == nil {
 		return nil, zerr.NameNotDefined(nameStr)
 	}
@@ -220,7 +224,11 @@ func (vm *VM) FindElementWithModule(name *IDName) (Element, *Module, error) {
 		return elem, NativeCodeModule, nil
 	}
 	// then look for local values
-	elem, moduleID := vm.getCurrentScope().GetValueWithModuleID(nameStr)
+	scope := vm.getCurrentScope()
+	if scope == nil {
+		return nil, nil, zerr.NameNotDefined(nameStr)
+	}
+	elem, moduleID := scope.GetValueWithModuleID(nameStr)
 	if elem == nil {
 		return nil, nil, zerr.NameNotDefined(nameStr)
 	}
@@ -282,6 +290,10 @@ func (vm *VM) SetElement(name *IDName, elem Element) error {
 
 // // internal functions
 func (vm *VM) getCurrentCallFrame() *CallFrame {
+	// no call frame at all, e.g. while evaluating input-variable texts
+	if vm.csCount <= 0 || vm.csCount > len(vm.callStack) {
+		return nil
+	}
 	return vm.callStack[vm.csCount-1]
 }
 
